@@ -240,7 +240,8 @@ Inductive action :=
 | KubeEv (mon : N) (obj : N)           (* an unlocked monitor emits an event: KubeEventsManager.Ch();
                                           obj numbers the event (object and watch-event type) *)
 | Finish (q : N) (ok : bool)           (* the hook execution open in queue q ends *)
-| Stop.                                (* Shutdown() *)
+| Stop                                 (* Shutdown() *)
+| Idle.                                (* nothing happens (time passes: used by timed scripts) *)
 
 (* ---- bootstrap ---- *)
 
@@ -488,6 +489,7 @@ Definition step (cfg : config) (s : state) (a : action) : state :=
         let (qs, unl) := finish_in (queues s) qn ok (stopped s) (unlocked s) in
         mkSt qs (sched_on s) unl (mon_started s) (stopped s)
     | Stop => mkSt (queues s) (sched_on s) (unlocked s) (mon_started s) true
+    | Idle => s
     end in
   op_advance cfg s1.
 
@@ -524,12 +526,21 @@ Open Scope Z_scope.
 
    Time.  Every action of a script carries the instant (ns, one clock) at which it happens;
    the workers it sets in motion enter their handlers at that instant.  A worker whose
-   reservation lies in the future sleeps in Limiter.Wait: its queue is recorded in
-   [l_waiting] with the wake-up instant and is not advanced any more.  Waking up is NOT
-   modelled: [l_overrun] is raised as soon as an action happens at or after a pending
-   wake-up instant, and from then on the model says nothing about the implementation (the
-   correspondence uses intervals far longer than a scenario; what the limiter does when
-   time passes is the limiter-level model above).  The theorems hold with or without it.
+   reservation lies in the future sleeps in Limiter.Wait (a timer for the delay of ITS OWN
+   reservation): its queue is recorded in [l_waiting] with the wake-up instant and the hook,
+   and is not advanced any more until it wakes up.
+
+   Waking up.  Before an action at instant [now] happens, every sleeper whose wake-up
+   instant u <= now has come wakes up AT u, the earliest first ([wake_due]): RateLimitWait
+   returns nil and taskHandleHookRun goes on with the task it was handling - skip rules,
+   combining with whatever has been queued behind it in the meantime, execution start
+   ([resume_q]).  Several workers may sleep for ONE hook at the same time (its bindings sit
+   in different queues, one tick or several ticks fed them): the limiter is the hook's, so
+   their reservations stack - the k-th sleeper wakes up k intervals after the bucket ran
+   empty (C18_stacked_reservations) - and each of them sleeps until its own instant.
+   [l_overrun] (kept from the time when waking up was not modelled) is raised as soon as an
+   action happens at or after a pending wake-up instant: scenarios with intervals far longer
+   than the scenario never raise it, timed scenarios do.  The theorems hold with or without it.
 
    Ghost log: every limiter call and every execution start is appended to [l_log]. *)
 
@@ -553,8 +564,8 @@ Definition init_limiters (hs : hook_settings) : limiters :=
 Inductive wstatus :=
 | WFree                  (* queue empty *)
 | WRun (sync : bool)     (* inside the handler, hook execution open (as [q_running]) *)
-| WWait (until : Z)      (* inside the handler, sleeping in RateLimitWait until [until] *)
-| WRepeat.               (* RateLimitWait failed: Repeat, the same task again and again *)
+| WWait (until : Z) (h : N)  (* inside the handler, sleeping in RateLimitWait of hook h until [until] *)
+| WRepeat (h : N).       (* RateLimitWait of hook h failed: Repeat, the same task again and again *)
 
 Record wctx := mkW { w_sh : shared; w_lims : limiters; w_log : list levent }.
 
@@ -587,9 +598,9 @@ Fixpoint advance_q_lim (fuel : nat) (cfg : config) (qok : N -> bool) (now : Z) (
               let (b', a) := reserve (w_lims w (t_hook t)) now in
               let w1 := mkW (w_sh w) (set_lim (w_lims w) (t_hook t) b') (w_log w ++ [LReq (t_hook t) now a]) in
               match a with
-              | None => (items, WRepeat, w1)
+              | None => (items, WRepeat (t_hook t), w1)
               | Some act =>
-                  if now <? act then (items, WWait act, w1)
+                  if now <? act then (items, WWait act (t_hook t), w1)
                   else
                     let v0 := match find_hook cfg (t_hook t) with Some h => h_v0 h | None => false end in
                     if should_run v0 t then
@@ -606,13 +617,18 @@ Fixpoint advance_q_lim (fuel : nat) (cfg : config) (qok : N -> bool) (now : Z) (
       end
   end.
 
-(* queues whose worker sleeps in RateLimitWait: name, wake-up instant (None: Repeat loop) *)
-Definition waiting := list (N * option Z).
-Definition is_waiting (wt : waiting) (q : N) : bool := existsb (fun p => N.eqb (fst p) q) wt.
+(* queues whose worker sleeps in RateLimitWait: queue name, wake-up instant (None: Repeat
+   loop), hook whose limiter it waits for *)
+Definition wentry := (N * option Z * N)%type.
+Definition we_queue (e : wentry) : N := fst (fst e).
+Definition we_until (e : wentry) : option Z := snd (fst e).
+Definition we_hook (e : wentry) : N := snd e.
+Definition waiting := list wentry.
+Definition is_waiting (wt : waiting) (q : N) : bool := existsb (fun e => N.eqb (we_queue e) q) wt.
 
 Definition run_of (st : wstatus) : option bool := match st with WRun s => Some s | _ => None end.
 Definition wait_of (q : N) (st : wstatus) : waiting :=
-  match st with WWait u => [(q, Some u)] | WRepeat => [(q, None)] | _ => [] end.
+  match st with WWait u h => [(q, Some u, h)] | WRepeat h => [(q, None, h)] | _ => [] end.
 
 Fixpoint advance_all_lim (cfg : config) (qok : N -> bool) (now : Z) (wt : waiting)
                          (qs : list qstate) (w : wctx) : list qstate * waiting * wctx :=
@@ -635,6 +651,7 @@ Record lstate := mkL {
   l_overrun : bool
 }.
 
+(* the workers move at instant [now] *)
 Definition advance_lim (cfg : config) (now : Z) (ls : lstate) : lstate :=
   let s := l_op ls in
   if stopped s then ls else
@@ -658,15 +675,110 @@ Definition pre_step (cfg : config) (s : state) (a : action) : state :=
       let (qs, unl) := finish_in (queues s) qn ok (stopped s) (unlocked s) in
       mkSt qs (sched_on s) unl (mon_started s) (stopped s)
   | Stop => mkSt (queues s) (sched_on s) (unlocked s) (mon_started s) true
+  | Idle => s
   end.
 
 Definition due (now : Z) (wt : waiting) : bool :=
-  existsb (fun p => match snd p with Some u => u <=? now | None => false end) wt.
+  existsb (fun e => match we_until e with Some u => u <=? now | None => false end) wt.
+
+(* ---- waking up ---- *)
+
+(* taskHandleHookRun after RateLimitWait has returned nil, at instant [at_], for the head
+   task of queue [qn] (the task the worker was handling when it fell asleep: the head of a
+   queue does not change while its worker is inside the handler).  Same statements as in
+   [advance_q_lim] after the limiter call.  [stp]: Shutdown() came while the worker slept:
+   RateLimitWait(context.Background()) is not interrupted, the handler runs to its end (the
+   hook is executed), but the worker leaves its loop afterwards without applying the result. *)
+Definition resume_q (cfg : config) (qok : N -> bool) (stp : bool) (at_ : Z) (qn : N)
+                    (items : list task) (w : wctx) : list task * wstatus * wctx :=
+  match items with
+  | [] => ([], WFree, w)
+  | t :: rest =>
+      let v0 := match find_hook cfg (t_hook t) with Some h => h_v0 h | None => false end in
+      if should_run v0 t then
+        let w2 := mkW (w_sh w) (w_lims w) (w_log w ++ [LStart (t_hook t) qn at_]) in
+        if negb v0 && should_combine t && qok (t_queue t) then
+          let (t', rest') := combine t rest in (t' :: rest', WRun (is_sync t), w2)
+        else (t :: rest, WRun (is_sync t), w2)
+      else
+        let w1 := mkW (mkSh (s_sched_on (w_sh w)) (s_unlocked (w_sh w) ++ t_mids t) (s_mon_started (w_sh w)))
+                      (w_lims w) (w_log w) in
+        if stp then (t :: rest, WFree, w1)
+        else advance_q_lim (fuel_for cfg rest) cfg qok at_ qn rest w1
+  end.
+
+Definition is_hookrun (t : task) : bool := match t_type t with HookRun => true | _ => false end.
+
+(* the worker of queue [qn], asleep for hook [h], wakes up at [at_] *)
+Fixpoint wake_in (cfg : config) (qok : N -> bool) (stp : bool) (at_ : Z) (qn h : N)
+                 (qs : list qstate) (w : wctx) : list qstate * waiting * wctx :=
+  match qs with
+  | [] => ([], [], w)
+  | q :: r =>
+      if N.eqb (q_name q) qn then
+        match q_items q with
+        | t :: _ =>
+            if N.eqb (t_hook t) h && is_hookrun t then
+              let '(items, st, w') := resume_q cfg qok stp at_ qn (q_items q) w in
+              (mkQ (q_name q) items (run_of st) :: r, wait_of qn st, w')
+            else (q :: r, [], w)        (* never: see [resume_q] *)
+        | [] => (q :: r, [], w)         (* never *)
+        end
+      else let '(r', wt, w') := wake_in cfg qok stp at_ qn h r w in (q :: r', wt, w')
+  end.
+
+Definition remove_entry (q : N) (wt : waiting) : waiting :=
+  filter (fun e => negb (N.eqb (we_queue e) q)) wt.
+
+Definition wake_one (cfg : config) (e : wentry) (at_ : Z) (ls : lstate) : lstate :=
+  let s := l_op ls in
+  let '(qs, wt, w) := wake_in cfg (has_queue (queues s)) (stopped s) at_ (we_queue e) (we_hook e) (queues s)
+                        (mkW (mkSh (sched_on s) (unlocked s) (mon_started s)) (l_lims ls) (l_log ls)) in
+  mkL (mkSt qs (s_sched_on (w_sh w)) (s_unlocked (w_sh w)) (s_mon_started (w_sh w)) (stopped s))
+      (remove_entry (we_queue e) (l_waiting ls) ++ wt) (w_lims w) (w_log w) (l_overrun ls).
+
+(* the sleeper that wakes up first among those whose instant has come *)
+Fixpoint earliest_due (now : Z) (wt : waiting) : option (wentry * Z) :=
+  match wt with
+  | [] => None
+  | e :: r =>
+      match we_until e with
+      | Some u =>
+          if u <=? now then
+            match earliest_due now r with
+            | Some (e', u') => if u' <? u then Some (e', u') else Some (e, u)
+            | None => Some (e, u)
+            end
+          else earliest_due now r
+      | None => earliest_due now r
+      end
+  end.
+
+(* all wake-ups up to [now], in the order of their instants; a wake-up can make the worker
+   ask the limiter again (a Synchronization that is not executed is followed by the next
+   task) and so produce another wake-up that is due *)
+Fixpoint wake_due (fuel : nat) (cfg : config) (now : Z) (ls : lstate) : lstate :=
+  match fuel with
+  | O => ls
+  | S fuel' =>
+      match earliest_due now (l_waiting ls) with
+      | Some (e, u) => wake_due fuel' cfg now (wake_one cfg e u ls)
+      | None => ls
+      end
+  end.
+
+(* every wake-up takes a task from a queue or opens an execution *)
+Definition wake_fuel (cfg : config) (ls : lstate) : nat :=
+  S (length (l_waiting ls) + fold_right (fun q n => fuel_for cfg (q_items q) + n)%nat 0%nat (queues (l_op ls))).
 
 Definition step_lim (cfg : config) (ls : lstate) (ta : Z * action) : lstate :=
-  advance_lim cfg (fst ta)
-    (mkL (pre_step cfg (l_op ls) (snd ta)) (l_waiting ls) (l_lims ls) (l_log ls)
-         (l_overrun ls || due (fst ta) (l_waiting ls))).
+  let now := fst ta in
+  let over := l_overrun ls || due now (l_waiting ls) in
+  let ls1 := wake_due (wake_fuel cfg ls) cfg now ls in
+  if due now (l_waiting ls1) then ls1     (* never: [wake_fuel] bounds the number of wake-ups *)
+  else
+    advance_lim cfg now
+      (mkL (pre_step cfg (l_op ls1) (snd ta)) (l_waiting ls1) (l_lims ls1) (l_log ls1) over).
 
 Definition init_lim (hs : hook_settings) : lstate := mkL init [] (init_limiters hs) [] false.
 
